@@ -40,12 +40,16 @@ structure Proc where
   pid : Nat                  -- os.getpid()
   pool : Pool
   held : Option Conn         -- SessionCache.connection: the connection checked out by the running session
-  fresh : Bool               -- ghost: this process has called connect since it came into being (root: true)
+  fresh : Bool               -- ghost: this process has called connect (successfully or not) since it came into being (root: true)
   deriving DecidableEq, Repr
 
 /-- operations a process performs on its own record -/
 inductive Act where
   | connect      -- SessionCache.connect → provider.connect → Pool.connect
+  | connectFail      -- the same call, but `pool._connect()` raises before a connection object exists (database file
+                     --   missing, server unreachable, `dbapi.connect` failing) — if `_connect` is reached at all
+  | connectInitFail  -- the same call, but the new connection is created and its initialisation raises
+                     --   (SQLitePool._connect since f4e02d2: `con.close(); raise`, `pool.con` is not assigned)
   | stmt         -- a statement executed by the session on its checked-out connection
   | release      -- SessionCache.close/release → Pool.release(held)
   | drop         -- provider.drop(held) → Pool.drop(held)
@@ -69,6 +73,7 @@ structure Out where
   closed : List Conn := []           -- close() was called on these
   attrError : Bool := false          -- `pool.pid` read while the attribute does not exist
   assertError : Bool := false        -- one of the `assert` statements failed
+  failed : Bool := false             -- `pool._connect()` raised: Pool.connect propagated the exception
   staleDisconnect : Bool := false    -- discipline G2 broken: disconnect by a process that has not connected since the fork
   deriving Repr
 
@@ -91,13 +96,33 @@ def poolConnect (me serial : Nat) (pl : Pool) : Pool × Out :=
     let n : Conn := { serial := serial, creator := me }
     ({ pl with con := some n, pid := some me, pidAttr := true }, { returned := some n, isNew := true })
 
+/-- `Pool.connect` when `pool._connect()` raises (if it is reached): the pid test and the parking happen BEFORE `_connect`
+    (`pool.con = pool.pid = None`), `pool.pid = pid` AFTER it — so the exception leaves `con = None`.
+    `initFail`: the connection object exists when the failure happens; SQLitePool closes it and does not assign `pool.con`
+    (for the base pool `_connect` is the single call `dbapi_module.connect`, there is no separate initialisation). -/
+def poolConnectFail (k : Kind) (initFail : Bool) (me serial : Nat) (pl : Pool) : Pool × Out :=
+  let n : Conn := { serial := serial, creator := me }
+  let cl : List Conn := if initFail && k ≠ .base then [n] else []
+  match pl.con with
+  | some c =>
+    if !pl.pidAttr then (pl, { attrError := true })
+    else if pl.pid ≠ some me then
+      ({ pl with con := none, pid := none, pidAttr := true, forked := pl.forked ++ [(c, pl.pid)] }, { failed := true, closed := cl })
+    else (pl, { returned := some c, isNew := false })      -- pooled connection of this process: `_connect` is not called
+  | none => (pl, { failed := true, closed := cl })
+
+/-- `SessionCache.connect` around a pool-level connect `f` -/
+def sessConnect (q : Proc) (f : Pool → Pool × Out) : Proc × Out :=
+  match q.held with
+  | some _ => (q, { assertError := true })     -- `assert cache.connection is None`
+  | none =>
+    let r := f q.pool
+    ({ q with pool := r.1, held := r.2.returned, fresh := q.fresh || r.2.returned.isSome || r.2.failed }, r.2)
+
 def localStep (k : Kind) (serial : Nat) (q : Proc) : Act → Proc × Out
-  | .connect =>
-    match q.held with
-    | some _ => (q, { assertError := true })     -- `assert cache.connection is None`
-    | none =>
-      let (pl, o) := poolConnect q.pid serial q.pool
-      ({ q with pool := pl, held := o.returned, fresh := q.fresh || o.returned.isSome }, o)
+  | .connect => sessConnect q (poolConnect q.pid serial)
+  | .connectFail => sessConnect q (poolConnectFail k false q.pid serial)
+  | .connectInitFail => sessConnect q (poolConnectFail k true q.pid serial)
   | .stmt =>
     match q.held with
     | some c => (q, { stmts := [c] })
